@@ -139,6 +139,7 @@ ENVS = {
     "gate+cancel_group": [["set", "g"], ["cancel", "G1"]],
     "gate+cancel_outer": [["set", "g"], ["cancel", "S0"]],
     "gate+hcancel": [["set", "g"], ["hcancel", "h:c0"]],
+    "gate+ext_spawn+ncancel_host": [["set", "g"], ["spawn", "G1", "ext"], ["ncancel", "main"]],
 }
 
 
@@ -186,7 +187,8 @@ def tt_programs(tier, raising_bias=False):
     # tasks started in the group by an outside callback (someone holding a reference to it)
     for combo in [(), ("ret",), ("cps",), ("wait",), ("cp_raise",), ("cps", "wait")]:
         for tail in ("none", "cp", "wait", "raise"):
-            for env in ("gate+ext_spawn", "gate+ext_spawn+cancel_outer"):
+            for env in ("gate+ext_spawn", "gate+ext_spawn+cancel_outer",
+                        "gate+ext_spawn+ncancel_host"):
                 children = [child_behaviours(i)[n] for i, n in enumerate(combo)]
                 p = make_program(children, HOST_TAILS[tail], ENVS[env])
                 p["label"] = f"children={combo} tail={tail} env={env}"
